@@ -17,9 +17,6 @@ theorem Post.ok {α : Type} {a : α} {Q : α → Prop} (h : Q a) : Post (Except.
 theorem Post.perr {α : Type} {Q : α → Prop} (e : PErr) : Post (perr e : R α) Q :=
   ⟨fun w hw => (by unfold C20.perr at hw; cases hw), fun b hb => (by unfold C20.perr at hb; cases hb)⟩
 
-theorem Post.unmodelled {α : Type} {Q : α → Prop} (w : String) : Post (Except.error (Stop.unmodelled w) : R α) Q :=
-  ⟨fun w hw => (by cases hw), fun b hb => (by cases hb)⟩
-
 theorem Post.bind {α β : Type} {x : R α} {g : α → R β} {Q1 : α → Prop} {Q2 : β → Prop}
     (hx : Post x Q1) (hg : ∀ a, Q1 a → Post (g a) Q2) : Post (x >>= g) Q2 := by
   cases hxx : x with
@@ -145,7 +142,6 @@ macro "pb" : tactic => `(tactic| (pbind; intro p hp; (try (have hprod : p = (p.1
 /-- close a leaf: an error, or a returned value whose postcondition is arithmetic over the collected facts -/
 macro "pfin" : tactic => `(tactic| first
   | exact Post.perr _
-  | exact Post.unmodelled _
   | (refine Post.pure ?_; (try simp only [BodyQ, LeQ]); (try dsimp only at *); omega)
   | (refine Post.pure ?_; (try simp only [BodyQ, LeQ]); (try dsimp only at *); exact ⟨by omega, fun _ => by omega⟩)
   | (refine Post.pure ?_; (try simp only [BodyQ, LeQ]); (try dsimp only at *); exact ⟨by omega, fun h => absurd h (by decide)⟩)
